@@ -23,7 +23,11 @@ R = Registry(
         "return the doubled text; percent-doubling sites agree; render_literal_value never hands None to a "
         "processor unless the type evaluates None, and raises CompileError when no processor exists; every site "
         "that short-circuits a typed None to SQL NULL (literal coercion, render_literal_value, "
-        "render_literal_bindparam) requires `not type.should_evaluate_none`, as the bound path does."
+        "render_literal_bindparam) requires `not type.should_evaluate_none`, as the bound path does; a validation "
+        "by a regular expression counts as a sanitiser only when the language it accepts (bounded model check of "
+        "the pattern with the match method actually used) consists of SQL numeric literals; the type handed to the "
+        "literal renderer in the compiler classes is never obtained through an accessor that strips a "
+        "TypeDecorator, so the literal is processed by the same type as the bound parameter."
     ),
     not_decided="equality of literal-rendered and bound execution results on a backend; DBAPI-level quoting; what a "
                 "type's bind processor and literal processor do with None (only that both are consulted).",
@@ -52,6 +56,76 @@ USER_HOOK = {
 }
 
 
+# ---------------------------------------------------------------------- validation by a regular expression
+_RE_FLAG_NAMES = {"I": re.I, "IGNORECASE": re.I, "X": re.X, "VERBOSE": re.X, "A": re.A, "ASCII": re.A,
+                  "S": re.S, "DOTALL": re.S, "M": re.M, "MULTILINE": re.M, "U": re.U, "UNICODE": re.U}
+_MATCH_METHODS = ("match", "fullmatch", "search")
+_NUM_ALPHABET = ("1", "+", "-", ".", "e", "E", " ", "'", ";", "a", "_", "\n", "(", "/")
+
+
+def _is_sql_numeric_literal(s: str) -> bool:
+    """<signed numeric literal> of SQL: [sign] (digits [. [digits]] | . digits) [E [sign] digits]; surrounding
+    white space is harmless in an unquoted position."""
+    s = s.strip(" \t\r\n")
+    i, n = 0, len(s)
+    if i < n and s[i] in "+-":
+        i += 1
+    d0 = i
+    while i < n and s[i].isdigit() and s[i].isascii():
+        i += 1
+    intd = i - d0
+    frac = 0
+    if i < n and s[i] == ".":
+        i += 1
+        f0 = i
+        while i < n and s[i].isdigit() and s[i].isascii():
+            i += 1
+        frac = i - f0
+    if intd == 0 and frac == 0:
+        return False
+    if i < n and s[i] in "eE":
+        i += 1
+        if i < n and s[i] in "+-":
+            i += 1
+        e0 = i
+        while i < n and s[i].isdigit() and s[i].isascii():
+            i += 1
+        if i == e0:
+            return False
+    return i == n
+
+
+_RX_VERDICTS: Dict[Tuple[str, int, str], Optional[str]] = {}
+
+
+def _regex_admits_non_numeric(pattern: str, flags: int, method: str) -> Optional[str]:
+    """Bounded model check of a validating regular expression: every string over a numeric / SQL-metacharacter
+    alphabet (length <= 4) that `re.<method>` accepts must be an SQL numeric literal.  -> None, or a witness."""
+    k = (pattern, flags, method)
+    if k in _RX_VERDICTS:
+        return _RX_VERDICTS[k]
+    import itertools
+    try:
+        rx = re.compile(pattern, flags)
+    except re.error as e:
+        _RX_VERDICTS[k] = f"the pattern does not compile ({e})"
+        return _RX_VERDICTS[k]
+    fn = getattr(rx, method)
+    witness = None
+    for n in range(0, 5):
+        for tup in itertools.product(_NUM_ALPHABET, repeat=n):
+            t = "".join(tup)
+            if fn(t) and not _is_sql_numeric_literal(t):
+                witness = t
+                break
+        if witness is not None:
+            break
+    _RX_VERDICTS[k] = None if witness is None else (
+        f"`{method}()` of /{pattern}/ accepts {witness!r}, which is not a numeric literal"
+        + (" (the pattern is only matched as a prefix: use fullmatch() / anchor the end)" if method in ("match", "search") else ""))
+    return _RX_VERDICTS[k]
+
+
 class _Interp:
     """Tiny abstract interpreter for the inner `process(value)` closures."""
 
@@ -59,6 +133,9 @@ class _Interp:
         self.ctx, self.outer, self.fn = ctx, outer, fn
         self.procs, self.nonnull, self.hooks = procs, nonnull, hooks
         self.returns: List[Tuple[int, ast.AST, str]] = []
+        self.return_envs: List[Dict[str, int]] = []
+        self.matches: Dict[str, set] = {}  # local holding a match object -> names the match validated
+        self.weak: List[str] = []  # regex validations that were found wanting (for the message)
         self.param = fn.args.args[0].arg if fn.args.args else "value"
 
     # -- expressions
@@ -159,6 +236,28 @@ class _Interp:
     depth = 0
 
     def _follow(self, c: ast.Call, env) -> Optional[int]:
+        tgt = self._resolve_target(c)
+        if tgt is None:
+            return None
+        target, params = tgt
+        env2 = {}
+        for p, a in zip(params, c.args):
+            env2[p] = self.ev(a, env)
+        for k in c.keywords:
+            if k.arg in params:
+                env2[k.arg] = self.ev(k.value, env)
+        sub_ = _Interp(self.ctx, self.outer, target, self.procs, self.nonnull, self.hooks)
+        sub_.depth = self.depth + 1
+        sub_._block(target.body, env2)
+        for w in sub_.weak:
+            if w not in self.weak:
+                self.weak.append(w)
+        if not sub_.returns:
+            return None
+        return min(r[0] for r in sub_.returns)
+
+    def _resolve_target(self, c: ast.Call):
+        """(FunctionDef, parameter names without self) of a helper worth following, else None."""
         if self.depth >= 2 or any(k.arg is None for k in c.keywords) or any(isinstance(a, ast.Starred) for a in c.args):
             return None
         target = None
@@ -184,18 +283,7 @@ class _Interp:
         params = [a.arg for a in target.args.posonlyargs + target.args.args]
         if skip_self and params:
             params = params[1:]
-        env2 = {}
-        for p, a in zip(params, c.args):
-            env2[p] = self.ev(a, env)
-        for k in c.keywords:
-            if k.arg in params:
-                env2[k.arg] = self.ev(k.value, env)
-        sub_ = _Interp(self.ctx, self.outer, target, self.procs, self.nonnull, self.hooks)
-        sub_.depth = self.depth + 1
-        sub_._block(target.body, env2)
-        if not sub_.returns:
-            return None
-        return min(r[0] for r in sub_.returns)
+        return target, params
 
     def _placeholders(self, pieces: List[Tuple[str, Optional[ast.AST]]], env) -> int:
         """pieces: (literal text, expr or None) in order; an expr inside single quotes needs >= QSAFE, outside
@@ -241,6 +329,130 @@ class _Interp:
         pieces.append((texts[-1], None))
         return self._placeholders(pieces, env)
 
+    # -- validation by a compiled regular expression -------------------------------------------------------
+    def _const_str(self, e) -> Optional[str]:
+        if isinstance(e, ast.Constant) and isinstance(e.value, str):
+            return e.value
+        if isinstance(e, ast.BinOp) and isinstance(e.op, ast.Add):
+            l, r = self._const_str(e.left), self._const_str(e.right)
+            return l + r if l is not None and r is not None else None
+        return None
+
+    def _flags(self, e) -> Optional[int]:
+        if e is None:
+            return 0
+        if isinstance(e, ast.Constant) and isinstance(e.value, int):
+            return e.value
+        if isinstance(e, ast.BinOp) and isinstance(e.op, ast.BitOr):
+            l, r = self._flags(e.left), self._flags(e.right)
+            return l | r if l is not None and r is not None else None
+        d = dotted(e) or ""
+        if d.startswith("re.") and d[3:] in _RE_FLAG_NAMES:
+            return int(_RE_FLAG_NAMES[d[3:]])
+        return None
+
+    def _compiled_pattern(self, e, depth=0) -> Optional[Tuple[str, int]]:
+        """(pattern, flags) of an expression that denotes `re.compile(<constant>[, flags])`: the call itself, a
+        closure / module constant bound exactly once to it, or a class attribute read off self."""
+        if depth > 3:
+            return None
+        if isinstance(e, ast.Call) and (call_name(e) or "") == "re.compile" and e.args:
+            pat = self._const_str(e.args[0])
+            fl = self._flags(e.args[1] if len(e.args) > 1 else next((k.value for k in e.keywords if k.arg == "flags"), None))
+            return (pat, fl) if pat is not None and fl is not None else None
+        if isinstance(e, ast.Name):
+            for scope in (self.fn, self.outer.node):
+                vals = [v for n, v, st in name_stores(scope, into_nested=False) if n == e.id]
+                if vals:
+                    return self._compiled_pattern(vals[0], depth + 1) if len(vals) == 1 and vals[0] is not None else None
+            vals = self.outer.module.assigns.get(e.id) or []
+            return self._compiled_pattern(vals[0], depth + 1) if len(vals) == 1 else None
+        if isinstance(e, ast.Attribute) and isinstance(e.value, ast.Name) and e.value.id in ("self", "cls") \
+                and self.outer.cls is not None:
+            _owner, vals = self.ctx.index.class_attr_nodes(self.outer.cls, e.attr)
+            return self._compiled_pattern(vals[0], depth + 1) if len(vals) == 1 else None
+        return None
+
+    def _match_subjects(self, c) -> Optional[set]:
+        """`<compiled>.fullmatch(x)` / `re.fullmatch(<constant>, x)` (match/search alike) whose accepted language
+        is numeric: the local names x is made of (`x`, `str(x)`).  None: not such a call / language too wide."""
+        if not (isinstance(c, ast.Call) and isinstance(c.func, ast.Attribute) and c.func.attr in _MATCH_METHODS):
+            return None
+        method = c.func.attr
+        if dotted(c.func.value) == "re":
+            if len(c.args) < 2:
+                return None
+            pat = self._const_str(c.args[0])
+            fl = self._flags(c.args[2] if len(c.args) > 2 else next((k.value for k in c.keywords if k.arg == "flags"), None))
+            cp = (pat, fl) if pat is not None and fl is not None else None
+            subject = c.args[1]
+        else:
+            cp = self._compiled_pattern(c.func.value)
+            subject = c.args[0] if c.args else None
+        if cp is None or subject is None:
+            return None
+        while isinstance(subject, ast.Call) and isinstance(subject.func, ast.Name) and subject.func.id == "str" and len(subject.args) == 1:
+            subject = subject.args[0]
+        if not isinstance(subject, ast.Name):
+            return None
+        bad = _regex_admits_non_numeric(cp[0], cp[1], method)
+        if bad is not None:
+            if bad not in self.weak:
+                self.weak.append(bad)
+            return None
+        return {subject.id}
+
+    def _proved(self, test, outcome: bool) -> set:
+        """Local names that are known to hold a numeric literal when `test` evaluates to `outcome`."""
+        if isinstance(test, ast.UnaryOp) and isinstance(test.op, ast.Not):
+            return self._proved(test.operand, not outcome)
+        if isinstance(test, ast.BoolOp):
+            if (isinstance(test.op, ast.And) and outcome) or (isinstance(test.op, ast.Or) and not outcome):
+                out = set()
+                for v in test.values:
+                    out |= self._proved(v, outcome)
+                return out
+            return set()
+        if isinstance(test, ast.Compare) and len(test.ops) == 1 and isinstance(test.comparators[0], ast.Constant) \
+                and test.comparators[0].value is None and isinstance(test.ops[0], (ast.Is, ast.IsNot)):
+            truthy = outcome if isinstance(test.ops[0], ast.IsNot) else not outcome
+            return self._proved(test.left, True) if truthy else set()
+        if isinstance(test, ast.NamedExpr):
+            return self._proved(test.value, outcome)
+        if not outcome:
+            return set()
+        if isinstance(test, ast.Name):
+            return set(self.matches.get(test.id, ()))
+        return self._match_subjects(test) or set()
+
+    def _validator_call(self, c: ast.Call, env) -> set:
+        """A bare call statement `helper(x)` of a followed helper that returns normally only when its parameter
+        holds a numeric literal (every normal exit is dominated by a successful validation): names proved."""
+        tgt = self._resolve_target(c)
+        if tgt is None:
+            return set()
+        target, params = tgt
+        argmap = {}
+        for p_, a in zip(params, c.args):
+            if isinstance(a, ast.Name):
+                argmap[p_] = a.id
+        for k in c.keywords:
+            if k.arg in params and isinstance(k.value, ast.Name):
+                argmap[k.arg] = k.value.id
+        if not argmap:
+            return set()
+        sub_ = _Interp(self.ctx, self.outer, target, self.procs, self.nonnull, self.hooks)
+        sub_.depth = self.depth + 1
+        env2 = {p_: env.get(n, SAFE) for p_, n in argmap.items()}
+        fall = sub_._block(target.body, dict(env2))
+        exits = list(sub_.return_envs) + ([fall] if fall is not None else [])
+        for w in sub_.weak:
+            if w not in self.weak:
+                self.weak.append(w)
+        if not exits:
+            return set()
+        return {n for p_, n in argmap.items() if env2[p_] != SAFE and all(e.get(p_, SAFE) == SAFE for e in exits)}
+
     # -- statements
     def run(self):
         env = {self.param: RAW}
@@ -252,15 +464,22 @@ class _Interp:
             if isinstance(st, ast.Return):
                 lv = self.ev(st.value, env) if st.value is not None else SAFE
                 self.returns.append((lv, st, ""))
+                self.return_envs.append(dict(env))
                 return None
             if isinstance(st, ast.Raise):
                 return None
             if isinstance(st, ast.Assign):
                 lv = self.ev(st.value, env)
+                subj = self._match_subjects(st.value) if isinstance(st.value, ast.Call) else None
                 for t in st.targets:
                     for n in ast.walk(t):
                         if isinstance(n, ast.Name):
                             env[n.id] = lv
+                            self.matches.pop(n.id, None)
+                            for ms in self.matches.values():
+                                ms.discard(n.id)  # re-bound after it was matched: the match says nothing any more
+                            if subj and isinstance(t, ast.Name) and n.id not in subj:
+                                self.matches[n.id] = set(subj)
             elif isinstance(st, ast.AnnAssign) and st.value is not None and isinstance(st.target, ast.Name):
                 env[st.target.id] = self.ev(st.value, env)
             elif isinstance(st, ast.AugAssign) and isinstance(st.target, ast.Name):
@@ -271,12 +490,21 @@ class _Interp:
                 if isinstance(v, ast.Call) and (call_name(v) or "") in ("decimal.Decimal", "Decimal", "int", "float") and v.args \
                         and isinstance(v.args[0], ast.Name):
                     env[v.args[0].id] = SAFE
+                elif isinstance(v, ast.Call):
+                    for n_ in self._validator_call(v, env):
+                        env[n_] = SAFE
             elif isinstance(st, ast.If):
                 t = st.test
                 # `if P:` on a processor that can never be None: only the body is feasible
                 always = isinstance(t, ast.Name) and t.id in self.nonnull
-                e1 = self._block(st.body, dict(env))
-                e2 = None if always else self._block(st.orelse, dict(env)) if st.orelse else dict(env)
+                # outcome of a validating regular expression: the matched local is a numeric literal on that branch
+                env_t, env_f = dict(env), dict(env)
+                for n_ in self._proved(t, True):
+                    env_t[n_] = SAFE
+                for n_ in self._proved(t, False):
+                    env_f[n_] = SAFE
+                e1 = self._block(st.body, env_t)
+                e2 = None if always else self._block(st.orelse, env_f) if st.orelse else env_f
                 if always and st.orelse:
                     e2 = None
                 if e1 is None and e2 is None:
@@ -399,6 +627,7 @@ def _analyse_outer(ctx, f: FuncInfo, string_nonnull: bool, int_nonnull: bool, se
                     f"`{unparse(node)[:90]}` returns text in which the processed value is {NAMES[lv]}"
                     + (" but not wrapped in quotes" if lv == QSAFE else
                        ": it reaches the SQL string without quote doubling / numeric conversion / delegation to a literal processor")
+                    + ("".join(f"; the validation by a regular expression does not establish a numeric literal: {w}" for w in it.weak[:2]))
                 ), f"{f.module.path}:{node.lineno}"
     # delegation in the outer function itself: `return self._literal_processor_x(dialect)` / `self._processor(...)`
     for r in returns_of(f.node):
@@ -1006,6 +1235,165 @@ def r4(ctx):
     ctx.require(n_sites >= 3, f"only {n_sites} typed None->NULL short-circuit sites found")
 
 
+# ---------------------------------------------------------------------- the type handed to the literal renderer
+def _unwrapping_accessors(ctx):
+    """(attributes of a TypeDecorator that hold the type it wraps, methods of TypeDecorator that return it).
+    Read off the class: the wrapped-type attributes are what `load_dialect_impl` -- the documented "which type do I
+    wrap" hook -- returns off self, and whatever is assigned in one statement with them; an accessor *unwraps* when
+    it is annotated to return a TypeEngine and one of its returns is computed from such an attribute or from
+    `load_dialect_impl()` (and not from a copy of the decorator itself)."""
+    from ._helpers_rob_c2 import Scope
+    td = ctx.index.cls("sql/type_api.py::TypeDecorator")
+    hook = td.methods.get("load_dialect_impl")
+    ctx.require(hook is not None and hook.params, "TypeDecorator.load_dialect_impl vanished")
+    me = hook.params[0]
+    wrapped = {r.value.attr for r in returns_of(hook.node)
+               if isinstance(r.value, ast.Attribute) and isinstance(r.value.value, ast.Name) and r.value.value.id == me}
+    ctx.require(wrapped, "TypeDecorator.load_dialect_impl does not return an attribute of the decorator")
+    grew = True
+    while grew:
+        grew = False
+        for f in td.methods.values():
+            for st in walk_stmts(f.node.body):
+                if isinstance(st, ast.Assign) and len(st.targets) > 1:
+                    attrs = {t.attr for t in st.targets if isinstance(t, ast.Attribute)}
+                    if attrs & wrapped and not attrs <= wrapped:
+                        wrapped |= attrs
+                        grew = True
+    unwrap = {hook.name}
+    for nm, f in sorted(td.methods.items()):
+        ann = unparse(f.node.returns) if f.node.returns is not None else ""
+        if "TypeEngine" not in ann or nm in unwrap or f.type_only or f.is_overload:
+            continue
+        sc = Scope(ctx, f)
+        for r in returns_of(f.node):
+            if r.value is None:
+                continue
+            at = sc.node_of(r.value)
+            if at is None:
+                continue
+            d = sc.deps(r.value, at)
+            if any(a in d for a in [f"self.{w}" for w in wrapped] + ["call:self." + hook.name, "call:." + hook.name]) \
+                    and not any(a.startswith("call:self._copy") or a.startswith("call:self.copy") for a in d):
+                unwrap.add(nm)
+    return wrapped, unwrap
+
+
+def _helper_unwraps(ctx, sc, call, at, unwrap, wrapped, depth=0):
+    """Unwrapping accessors on the provenance of what a same-module helper returns (followed two levels)."""
+    from ._helpers_rob_c2 import Scope
+    tgt = sc.resolve_callee(call, at)
+    if tgt is None or depth > 1:
+        return []
+    hs = Scope(ctx, tgt)
+    out = []
+    for r in returns_of(tgt.node):
+        if r.value is None:
+            continue
+        rat = hs.node_of(r.value)
+        if rat is None:
+            continue
+        out += [a + f" (in {tgt.qualname})" for a in hs.deps(r.value, rat)
+                if a.startswith("call:") and a.rsplit(".", 1)[-1] in unwrap]
+        for x in [r.value] + [x for kind, x, _n in hs.origins(r.value, rat) if kind == "expr"]:
+            for n in ast.walk(x):
+                if isinstance(n, ast.Attribute) and n.attr in wrapped and not (
+                        isinstance(n.value, ast.Name) and hs.is_self(n.value, rat)):
+                    out.append(f"attribute .{n.attr} (in {tgt.qualname})")
+                elif isinstance(n, ast.Call) and n is not r.value:
+                    out += _helper_unwraps(ctx, hs, n, rat, unwrap, wrapped, depth + 1)
+    return out
+
+
+def _enclosing_comprehensions(pm, node, stop):
+    out = []
+    cur = pm.get(node)
+    while cur is not None and cur is not stop:
+        if isinstance(cur, (ast.ListComp, ast.SetComp, ast.GeneratorExp, ast.DictComp)):
+            out.append(cur)
+        cur = pm.get(cur)
+    return list(reversed(out))
+
+
+@R.rule("C05-R5", floor=31, template="T-FLOW (provenance of the type argument)",
+        desc="the type handed to the literal renderer is the parameter's own type, the one whose bind processor "
+             "processes the bound form: in every compiler class, the type argument of render_literal_value() (and the "
+             "receiver of a literal-processor lookup) is never computed through an accessor that strips a "
+             "TypeDecorator (`_unwrapped_dialect_impl`, `load_dialect_impl`, `.impl`, `.impl_instance` ...)")
+def r5(ctx):
+    from ._helpers_rob_c2 import Scope
+    wrapped, unwrap = _unwrapping_accessors(ctx)
+    ctx.ok("sql/type_api.py::TypeDecorator:unwrapping-accessors",
+           f"wrapped-type attributes {sorted(wrapped)}; accessors returning the wrapped type {sorted(unwrap)}")
+    roots = [ctx.index.cls("sql/compiler.py::Compiled"), ctx.index.cls("sql/compiler.py::TypeCompiler")]
+    classes = []
+    for rt in roots:
+        for c in [rt] + ctx.index.subclasses(rt):
+            if c not in classes and not c.module.relpath.startswith("testing"):
+                classes.append(c)
+    renderer = ctx.func("sql/compiler.py::SQLCompiler.render_literal_value")
+    rparams = [p for p in renderer.params if p != "self"]
+    ctx.require(len(rparams) >= 2, "render_literal_value no longer takes (value, type)")
+    tparam = rparams[1]
+    n_sites = 0
+    for cls in sorted(classes, key=lambda c: c.key):
+        for fn in sorted(cls.methods.values(), key=lambda f: f.key):
+            if fn.type_only or fn.is_overload:
+                continue
+            sites = []  # (call, type expression, what)
+            for c in calls_in(fn.node, into_nested=True):
+                if not isinstance(c.func, ast.Attribute):
+                    continue
+                if c.func.attr == renderer.name:
+                    t = c.args[1] if len(c.args) > 1 and not any(isinstance(a, ast.Starred) for a in c.args[:2]) else \
+                        next((k.value for k in c.keywords if k.arg == tparam), None)
+                    if t is not None:
+                        sites.append((c, t, f"type argument of {renderer.name}()"))
+                elif c.func.attr in ("_cached_literal_processor", "literal_processor") and fn.name != c.func.attr:
+                    sites.append((c, c.func.value, f"receiver of .{c.func.attr}()"))
+            if not sites:
+                continue
+            try:
+                sc = Scope(ctx, fn)
+            except Exception as e:  # pragma: no cover - CFG construction of an exotic function
+                ctx.error(f"{fn.key}: cannot build a scope ({e})")
+            pm = fn.module.parents()
+            for k, (c, t, what) in enumerate(sites):
+                at = sc.node_of(c)
+                if at is None:
+                    continue  # nested def: not part of this function's CFG
+                n_sites += 1
+                cenv = None
+                for comp in _enclosing_comprehensions(pm, c, fn.node):
+                    cenv = sc.comp_env(comp, at, False, cenv)
+                deps = sc.deps(t, at, False, cenv)
+                via = sorted(a for a in deps if a.startswith("call:") and a.rsplit(".", 1)[-1] in unwrap)
+                # wrapped-type attributes read directly (or through getattr) in the expressions that define the
+                # type argument; helpers called there are followed (also from inside a comprehension)
+                exprs = [t] + [x for kind, x, _n in sc.origins(t, at) if kind == "expr"]
+                for x in exprs:
+                    for n in ast.walk(x):
+                        if isinstance(n, ast.Attribute) and n.attr in wrapped and not (
+                                isinstance(n.value, ast.Name) and sc.is_self(n.value, at)):
+                            via.append("attribute ." + n.attr)
+                        elif isinstance(n, ast.Call) and isinstance(n.func, ast.Name) and n.func.id == "getattr" \
+                                and len(n.args) >= 2 and isinstance(n.args[1], ast.Constant) \
+                                and n.args[1].value in (wrapped | unwrap):
+                            via.append("attribute ." + str(n.args[1].value))
+                        elif isinstance(n, ast.Call):
+                            via.extend(_helper_unwraps(ctx, sc, n, at, unwrap, wrapped))
+                key = f"{fn.key}:literal-type" + (f"#{k}" if len(sites) > 1 else "")
+                ctx.check(
+                    not via, key,
+                    f"`{unparse(c)[:80]}`: the {what} `{unparse(t)[:60]}` is computed through {sorted(set(via))}, which "
+                    f"strips a TypeDecorator (it yields the wrapped impl type): the literal is rendered without the "
+                    f"decorator's process_literal_param / process_bind_param while the bound form of the same "
+                    f"parameter is processed by them -- literal_binds / literal_execute and bound execution select "
+                    f"different rows",
+                    f"{what} `{unparse(t)[:50]}`: no unwrapping accessor on its provenance", f"{fn.module.path}:{c.lineno}")
+    ctx.require(n_sites >= 20, f"only {n_sites} literal rendering sites found in the compiler classes")
+
+
 # ---------------------------------------------------------------------- self-test battery
 T = "sql/sqltypes.py"
 R.mutant("string-no-quote-doubling", T, sub("    def literal_processor(self, dialect):\n        def process(value):\n            value = value.replace(\"'\", \"''\")\n\n            if dialect.identifier_preparer._double_percents:",
@@ -1215,3 +1603,81 @@ R.mutant("mysql-helper-doubles-the-python-value", MY, sub(
     "        rendered = super().render_literal_value(value, type_)\n        if self.dialect._backslash_escapes and value is not None:\n"
     "            value = self._double_backslashes(value)\n        return rendered\n\n"
     "    @staticmethod\n    def _double_backslashes(text):\n        return text.replace(\"\\\\\", \"\\\\\\\\\")\n\n    # override native_boolean"), "C05-R2")
+
+# ---------------------------------------------------------------------- str2-a: round 2 seeds and neighbours
+_IN_SCALAR = ("                        be_left,\n                        self.render_literal_value(value, parameter.type),\n"
+              "                        be_right,\n")
+_IN_PLAIN = ("                replacement_expression = \", \".join(\n"
+             "                    self.render_literal_value(value, parameter.type)\n"
+             "                    for value in values\n                )\n")
+# seed C05_3: the IN-list literal renderer re-uses the unwrapped dialect impl computed for the tuple/null flags
+R.mutant("r5-seed3-in-list-rendered-with-unwrapped-impl", "sql/compiler.py", chain(
+    sub(_IN_SCALAR, _IN_SCALAR.replace("parameter.type", "typ_dialect_impl")),
+    sub(_IN_PLAIN, _IN_PLAIN.replace("parameter.type", "typ_dialect_impl"))), "C05-R5")
+R.mutant("r5-bindparam-literal-rendered-with-impl-attribute", "sql/compiler.py",
+         sub("            return self.render_literal_value(value, bindparam.type)\n",
+             "            literal_type = bindparam.type\n"
+             "            literal_type = getattr(literal_type, \"impl_instance\", literal_type)\n"
+             "            return self.render_literal_value(value, literal_type)\n"), "C05-R5")
+R.mutant("r5-in-list-type-from-helper-that-unwraps", "sql/compiler.py", chain(
+    sub(_IN_PLAIN, _IN_PLAIN.replace("parameter.type", "self._in_list_literal_type(parameter)")),
+    sub("    def _literal_execute_expanding_parameter(self, name, parameter, values):\n",
+        "    def _in_list_literal_type(self, parameter):\n"
+        "        declared = parameter.type\n"
+        "        return declared.load_dialect_impl(self.dialect)\n\n"
+        "    def _literal_execute_expanding_parameter(self, name, parameter, values):\n")), "C05-R5")
+# benign: alias of the declared type / rendering extracted into a helper / the unwrapped impl still used for flags
+R.mutant("benign-in-list-declared-type-alias", "sql/compiler.py", chain(
+    sub("        typ_dialect_impl = parameter.type._unwrapped_dialect_impl(self.dialect)\n\n        if not values:\n            # empty IN expression.  note we don't need to use\n",
+        "        declared_type = parameter.type\n        typ_dialect_impl = declared_type._unwrapped_dialect_impl(self.dialect)\n\n"
+        "        if not values:\n            # empty IN expression.  note we don't need to use\n"),
+    sub(_IN_SCALAR, _IN_SCALAR.replace("parameter.type", "declared_type")),
+    sub(_IN_PLAIN, _IN_PLAIN.replace("parameter.type", "declared_type"))), None)
+R.mutant("benign-in-list-element-rendering-helper", "sql/compiler.py", chain(
+    sub(_IN_PLAIN, "                replacement_expression = \", \".join(\n"
+        "                    self._render_in_element(value, parameter)\n"
+        "                    for value in values\n                )\n"),
+    sub("    def _literal_execute_expanding_parameter(self, name, parameter, values):\n",
+        "    def _render_in_element(self, element, owner):\n"
+        "        element_type = owner.type\n"
+        "        return self.render_literal_value(element, element_type)\n\n"
+        "    def _literal_execute_expanding_parameter(self, name, parameter, values):\n")), None)
+
+# seed C05_4: Decimal() validation of the Numeric literal replaced by a regular expression matched as a prefix
+_NUM_OLD = "            decimal.Decimal(value)\n            return str(value)\n"
+_NUM_RX = "[+-]?(?:\\d+\\.?\\d*|\\.\\d+)(?:[eE][+-]?\\d+)?"
+def _num_regex_variant(method, pattern=_NUM_RX, flags=""):
+    return chain(
+        sub("    def literal_processor(self, dialect):\n        def process(value):\n            # the value is rendered into the SQL string directly and\n",
+            "    def literal_processor(self, dialect):\n        import re\n\n        numeric_literal = re.compile(\n            r\"" + pattern + "\"" + flags + "\n        )\n\n"
+            "        def process(value):\n            # the value is rendered into the SQL string directly and\n"),
+        sub(_NUM_OLD, "            value = str(value)\n            if not numeric_literal." + method + "(value):\n"
+            "                raise ValueError(f\"not a numeric literal: {value!r}\")\n            return value\n"))
+R.mutant("r1-seed4-numeric-validated-by-prefix-match", T, _num_regex_variant("match"), "C05-R1")
+R.mutant("r1-numeric-regex-fullmatch-but-too-wide", T, _num_regex_variant("fullmatch", "[0-9eE+. -]+"), "C05-R1")
+R.mutant("benign-numeric-validated-by-fullmatch", T, _num_regex_variant("fullmatch"), None)
+R.mutant("benign-numeric-validated-by-anchored-match", T, _num_regex_variant("match", _NUM_RX + "\\Z"), None)
+R.mutant("benign-numeric-match-object-local-inverted-branch", T, chain(
+    sub("    def literal_processor(self, dialect):\n        def process(value):\n            # the value is rendered into the SQL string directly and\n",
+        "    _NUMERIC_LITERAL = re.compile(r\"" + _NUM_RX + "\")\n\n"
+        "    def literal_processor(self, dialect):\n        def process(value):\n            # the value is rendered into the SQL string directly and\n"),
+    sub("import pickle\n", "import pickle\nimport re\n"),
+    sub(_NUM_OLD, "            text = str(value)\n            found = self._NUMERIC_LITERAL.fullmatch(text)\n"
+        "            if found is not None:\n                return text\n"
+        "            raise ValueError(f\"not a numeric literal: {text!r}\")\n")), None)
+R.mutant("benign-numeric-validation-in-a-helper", T, chain(
+    sub("    def literal_processor(self, dialect):\n        def process(value):\n            # the value is rendered into the SQL string directly and\n",
+        "    @staticmethod\n    def _require_numeric_literal(text):\n"
+        "        if re.fullmatch(r\"" + _NUM_RX + "\", text) is None:\n"
+        "            raise ValueError(f\"not a numeric literal: {text!r}\")\n\n"
+        "    def literal_processor(self, dialect):\n        def process(value):\n            # the value is rendered into the SQL string directly and\n"),
+    sub("import pickle\n", "import pickle\nimport re\n"),
+    sub(_NUM_OLD, "            text = str(value)\n            self._require_numeric_literal(text)\n            return text\n")), None)
+R.mutant("r1-numeric-validation-helper-searches", T, chain(
+    sub("    def literal_processor(self, dialect):\n        def process(value):\n            # the value is rendered into the SQL string directly and\n",
+        "    @staticmethod\n    def _require_numeric_literal(text):\n"
+        "        if re.search(r\"" + _NUM_RX + "\", text) is None:\n"
+        "            raise ValueError(f\"not a numeric literal: {text!r}\")\n\n"
+        "    def literal_processor(self, dialect):\n        def process(value):\n            # the value is rendered into the SQL string directly and\n"),
+    sub("import pickle\n", "import pickle\nimport re\n"),
+    sub(_NUM_OLD, "            text = str(value)\n            self._require_numeric_literal(text)\n            return text\n")), "C05-R1")
